@@ -38,6 +38,26 @@ CLAIMED = {
    "The real LoadBalanceConnector is built from generated YAML and driven through the real process_request: round robin sequentially (every window of n selections covers every member) and concurrently from 2-8 tasks on a 4-thread runtime (exact counts), hash-by stickiness against reference key evaluation over 10 key expressions, random coverage (400*n draws), non-member decoy never used, recorded connector == member that ran. 1 500 / 40 000 configurations. Concurrent round robin is stress on a real multi-thread runtime, not schedule enumeration.",
    "Trusted: reference key evaluation (C08 interpreter); recording members. The random law has a false-alarm probability below 1e-20 per case.",
    "proptest stateful sequences + multi-thread stress, oracle = counting / grouping invariants", "§3 C17"),
+ "C01": ("vp-inproc", "exploration",
+   "Part (a) of the design, the buffered relay path under an owned schedule: 1 500 (quick) / 40 000 (thorough) generated cases of 1-3 concurrent tunnels through the real create_context, h11c_handshake, process_request, rules, h11c_connect and copy_bidi on one current-thread runtime, with payloads up to 1 MiB, early data on both sides, per-poll I/O schedules down to one byte, pipe capacities from 1 byte (back-pressure) and bufferSize from 1 to 65536; bytes at each far end must equal the bytes sent. The end-to-end pairing grid (splice, TLS, SOCKS/QUIC hops) is added with the e2e engine.",
+   "Trusted: tokio's in-memory duplex and the Scripted wrapper as carriers; the harness peers are full-duplex; a virtual clock turns a wedge into a verdict, a non-blocking spin is caught by a 120 s wall-clock watchdog and reported as inconclusive (exit 2).",
+   "proptest over generated I/O schedules, oracle = byte-for-byte equality with keyed PRNG payloads", "§3 C01(a)"),
+ "C04": ("vp-inproc", "exploration",
+   "Part (a): the same generated tunnel cases with eager / reactive half-closes on either side and injected read/write errors at generated offsets; each receiver must see EOF only after every byte, the opposite direction must still deliver everything, both write halves must be shut down and the context must end Terminated; after a fault both far ends must be released. The splice-vs-buffered differential on real sockets is added with the e2e engine.",
+   "Trusted: as C01; 'promptly' is decided by the virtual clock (every task blocked = wedge), not by wall time.",
+   "proptest over close/fault schedules, oracle = history invariant on EOF ordering and terminal state", "§3 C04(a)"),
+ "C06": ("vp-e2e", "fault_enumeration",
+   "Enumerated grid against one real proxy process with fake upstream proxies: 6 client protocols x {direct reachable/refused, deny, no rule, unsupported feature, bad command, 10 HTTP-upstream reply scripts, 16 SOCKS5-upstream scripts, 6 SOCKS4-upstream scripts} x {waits, pipelines, half-closes}: 529 cases (quick, one pass) / 6 passes with fresh payload tags (thorough). The raw bytes the client receives are reference-parsed: success iff (and not before) the upstream granted, then an exact echo round trip; otherwise exactly one complete failure reply (HTTP body length == Content-Length) and EOF; no origin connection on refusal.",
+   "Trusted: refcodec parsers; harness-side fake upstreams and origin; 15 s per-step I/O deadlines (a miss is reported as a missing reply).",
+   "enumerated outcome grid + reference parsing of raw client bytes", "§3 C06"),
+ "C13": ("vp-e2e", "exploration",
+   "Five real proxy instances with different timeouts sections, six tunnel kinds, five traffic patterns (56 cases quick, ~190 thorough, all cases of an instance in parallel): /api/live must show the configured idle_timeout for the tunnel kind; with T in 1..3 s the tunnel must be closed between T-0.1 s and T+2.5 s after the last byte and never during a trickle with period 0.6 T; with 0 or 600 it must still be open after 4 s.",
+   "Trusted: wall clock of the sandbox; an upper-bound miss while the harness heartbeat detected a host stall (> 0.6 s) is counted inconclusive, lower bounds and the wiring check have no such dependence.",
+   "generated traffic patterns against real processes, oracle = timing bounds + configuration wiring read from the API", "§3 C13"),
+ "C16": ("vp-inproc", "exploration",
+   "Part (b): the generated in-process tunnel cases judged for accounting: lifecycle state log with exactly one terminal state (ErrorOccured + text after a fault), per-direction byte counters equal to the relayed payload including early data, recorded connector, live-table membership. The end-to-end histories (access log, /api/history, rotation) are added with the e2e engine.",
+   "Trusted: the record is read from the collector list that Context::drop feeds (the same data the access log and /api/history receive).",
+   "proptest over tunnel histories, oracle = lifecycle regular expression + counter equality", "§3 C16(b)"),
 }
 
 NOT_YET = "check not built yet in this session (see DESIGN.md §6 build order); will be claimed once its generator and oracle exist"
